@@ -755,7 +755,8 @@ def ia32_reg_32(obj, Mod, RM, REG, data):
 @ispec_ia32("*>[ {87} /r     ]", mnemonic="XCHG")
 @ispec_ia32("*>[ {8b} /r     ]", mnemonic="MOV")
 @ispec_ia32("*>[ {8d} /r     ]", mnemonic="LEA")
-@ispec_ia32("*>[ {0f}{bc} /r ]", mnemonic="BSF")
+@ispec_ia32("*>[ {0f}{bc} /r ]", mnemonic="BSF", __obj=precond_norep)
+@ispec_ia32("*>[ {0f}{bc} /r ]", mnemonic="TZCNT", __obj=precond_rep)
 @ispec_ia32("*>[ {0f}{bd} /r ]", mnemonic="BSR", __obj=precond_norep)
 @ispec_ia32("*>[ {0f}{bd} /r ]", mnemonic="LZCNT", __obj=precond_rep)
 @ispec_ia32("*>[ {0f}{af} /r ]", mnemonic="IMUL")
